@@ -71,7 +71,7 @@ def _element(ctx, st, idx, nref, nfeat, shared_titles, with_cit=True):
     ann = {"topology": "circular"}
     if nref and with_cit:
         ann["references"] = refs
-    rec = st.record.CircularRecord(st.Seq("ACGTTGCAAGCT"), id="el%d" % idx, name="n%d" % idx, features=feats, annotations=ann)
+    rec = st.record.CircularRecord(st.Seq("ACGTTGCAAGCT"), id=("Exported" if ctx.P.get("ids") == "same" else "el%d" % idx), name="n%d" % idx, features=feats, annotations=ann)
     return rec, spec
 
 
@@ -218,6 +218,10 @@ def obligations(tier, seed):
                   cost=3000))
     obs.append(Ob("citations of per-record 'Direct Submission' references m=1 refs=[2,1]", ob_citations,
                   dict(m=1, nref=[2, 1], nfeat=[1, 1], ncit=[1, 1], sympos=1, direct_submission=True), samples=8, cost=6000))
+    # record identifiers are labels: inputs that share one are still separate inputs with their own reference lists
+    for sh in (shapes[0], shapes[4]):
+        obs.append(Ob("citations m=%d refs=%s, all records share one id" % (sh["m"], sh["nref"]), ob_citations,
+                      dict(sh, sympos=0, ids="same"), samples=8, cost=8 * 4 ** sum(sh["nref"]) * 2 ** sum(sh["ncit"]), group="ids"))
     for sh in shapes:
         for sympos in range(sh["m"] + 1):
             if sh["nfeat"][sympos] == 0:
